@@ -23,6 +23,9 @@ CHECKS = {
  "C15": dict(cat="model_checking", design="DESIGN.md section 5 C15",
    technique="TLA+ spec Alphabet.tla (set semantics of FROM expressions over an atom abstraction of each string type's alphabet, set-algebra laws checked by TLC); every TLC-generated FROM expression replayed through the real compiler; recorded trace validated by TLC, known deviations as named TLA+ operators",
    text="TLC enumerates every FROM expression of the bounded algebra (strings, ranges, inclusion of a constrained type; | ^ EXCEPT; quick <=2 operands) x string type (known-multiplier and not) x six ways of combining with SIZE x assignment/component (53 928 cases quick), checks the set laws on the model and validates the from(...) annotation the compiler emitted, expanded back to atoms: exact for EXCEPT-free expressions, between Allowed and Allowed-with-EXCEPT-ignored otherwise, inside the base alphabet, absent for non-known-multiplier types."),
+ "C16": dict(cat="model_checking", design="DESIGN.md section 5 C16",
+   technique="TLA+ spec Idents.tla (names as character sequences, predicate Legal per role, keyword table from the Rust Reference); every TLC-generated name x role compiled by the real compiler; recorded trace validated by TLC against Legal",
+   text="TLC enumerates every legal ASN.1 name up to 5 (thorough 6) characters over {a,b,A,B,1,-} in each of six roles and every strict/reserved Rust keyword in each spelling and role (15 564 cases quick), plus a seeded sample of 24-character names; for each, the identifier and identifier annotation found in the generated bindings are validated against Legal: legal non-keyword Rust identifier, case rule of the role, ASN.1 name recoverable, annotation present and equal to the ASN.1 spelling whenever the identifier differs."),
 }
 
 NOT_BUILT = "check not built yet (DESIGN.md section 13 build order)"
